@@ -338,10 +338,71 @@ def m_math_shape(root, rng):
     return "math:" + k
 
 
+RUNS = [" ", "\n", "\t", " \n\t", "0", "9", "a", "Z", ".", "-", "e", "+", "_", "\u00e9"]
+
+
+def m_long_run(root, rng):
+    """size stress for every lexical class the code scans: a long run of one character class in a text node, an attribute
+    value, an element name or an attribute name"""
+    els = _elements(root)
+    ch = rng.choice(RUNS)
+    n = rng.choice([1024, 16384, 60000])
+    room = MAXLEN - len(ET.tostring(root)) - 200
+    n = max(16, min(n, room // max(1, len(ch.encode()))))
+    run = (ch * (n // len(ch) + 1))[:n]
+    where = rng.choice(["text", "text", "text-math", "tail", "attr", "attr", "attr-num", "elname", "attrname", "manyattrs"])
+    place = rng.choice(["prefix", "suffix", "both", "whole", "middle"])
+
+    def put(old):
+        old = old or ""
+        if place == "prefix":
+            return run + old
+        if place == "suffix":
+            return old + run
+        if place == "both":
+            return run[: n // 2] + old + run[: n // 2]
+        if place == "middle" and old:
+            k = rng.randrange(len(old) + 1)
+            return old[:k] + run + old[k:]
+        return run
+    if where in ("text", "text-math", "tail"):
+        cands = [e for e in els if (where != "text-math" or e.tag.startswith("{%s}" % MATHML))]
+        pref = [e for e in cands if _local(e.tag) in ("ci", "cn")]
+        e = rng.choice(pref if pref and rng.random() < 0.6 else cands or els)
+        if where == "tail":
+            e.tail = put(e.tail)
+        else:
+            e.text = put(e.text)
+        return "run:%s/%s*%d/%s@%s" % (where, repr(ch)[1:-1], n, place, _local(e.tag))
+    if where in ("attr", "attr-num"):
+        cands = [(e, k) for e in els for k in e.attrib
+                 if where == "attr" or _local(k) in ("initial_value", "exponent", "multiplier", "prefix", "order")]
+        if not cands:
+            return None
+        e, k = rng.choice(cands)
+        e.set(k, put(e.get(k)))
+        return "run:attr/%s*%d/%s@%s" % (repr(ch)[1:-1], n, place, _local(k))
+    if not (ch.isalnum() or ch in "._-"):
+        ch = "a"
+        run = ch * n
+    if where == "elname":
+        e = rng.choice(els)
+        ns = e.tag[: e.tag.index("}") + 1] if e.tag.startswith("{") else ""
+        e.tag = ns + "a" + run
+        return "run:element-name*%d" % n
+    if where == "attrname":
+        rng.choice(els).set("a" + run, "1")
+        return "run:attribute-name*%d" % n
+    e = rng.choice(els)
+    for i in range(min(3000, room // 8)):
+        e.set("a%d" % i, "1")
+    return "run:many-attributes"
+
+
 TREE_MUTATORS = [
     (m_attr_value, 30), (m_attr_copy, 8), (m_attr_drop_or_add, 8), (m_namespace_swap, 8), (m_subtree_delete, 10),
     (m_subtree_duplicate, 8), (m_subtree_move, 6), (m_nest_deep, 5), (m_unit_cycle, 8), (m_import_tweak, 4), (m_text, 8),
-    (m_math_shape, 14),
+    (m_math_shape, 14), (m_long_run, 14),
 ]
 
 
